@@ -348,6 +348,16 @@ theorem scope_no_redeclare (t : Table) (k : Key) (old new : DKind)
     (∀ t', insertDecl t k new = some t' → defines new old) :=
   insertDecl_occupied t k old new hk
 
+/-- **T5 for whole sequences.** In an accepted sequence of declarations,
+    whatever is declared again later under the same (scope, name) was a forward
+    stub: no variable, defined constant / function / method / type, module or
+    type parameter is ever redeclared in its scope. For all sequences, from any
+    starting table. -/
+theorem scope_no_redefinition (ds : List (Key × DKind)) (t0 t : Table) (h : insertAll t0 ds = some t)
+    (pre : List (Key × DKind)) (a : Key × DKind) (rest : List (Key × DKind)) (hsplit : ds = pre ++ a :: rest)
+    (b : Key × DKind) (hb : b ∈ rest) (hk : a.1 = b.1) : isStub a.2 = true :=
+  insertAll_no_redefinition ds t0 t h pre a rest hsplit b hb hk
+
 /-- keys stay unique: an accepted sequence of insertions never yields a table
     with two entries for one (scope, name) -/
 theorem scope_keys_unique (ds : List (Key × DKind)) (t : Table) (h : insertAll [] ds = some t) :
